@@ -1457,6 +1457,21 @@ class Interp:
             elif isinstance(s, Lit):
                 if isinstance(lo, int) and isinstance(hi, int):
                     out.append(Lit(s.bs[max(lo, 0):max(min(hi, len(s.bs)), 0)]))
+                elif len(s.bs) <= 64:
+                    # symbolic cut through a short literal: decide the cut points (complete case split)
+                    def pick(x, label):
+                        if isinstance(x, int):
+                            return max(0, min(len(s.bs), x))
+                        for cand in range(0, len(s.bs) + 1):
+                            cnd = (_iv(x) <= 0) if cand == 0 else (_iv(x) >= cand) if cand == len(s.bs) else (_iv(x) == cand)
+                            if cand == len(s.bs):
+                                P.assume(cnd)
+                                return cand
+                            if P.branch(cnd, label):
+                                return cand
+                        return len(s.bs)
+                    l2, h2 = pick(lo, "litcut_lo"), pick(hi, "litcut_hi")
+                    out.append(Lit(s.bs[l2:max(h2, l2)]))
                 else:
                     # symbolic cut through a literal: turn the literal into a view
                     base = z3.Const(fresh("litarr"), ARR)
